@@ -69,7 +69,7 @@ func TestVerifDebMgrReal(t *testing.T) {
 				entered <- struct{}{}
 				select { // the reload stays in progress until the harness lets it go
 				case <-release:
-				case <-time.After(10 * time.Second):
+				case <-time.After(60 * time.Second):
 				}
 				if failFirst {
 					return errors.New("scripted failure of the reload signal")
@@ -128,14 +128,14 @@ func TestVerifDebMgrReal(t *testing.T) {
 				out.Fail("deb-mgr-real-api-error", fmt.Sprintf("round %d: %v", k, err), replay)
 				continue
 			}
-		case <-time.After(5 * time.Second):
-			out.Fail("deb-mgr-submit-deadlock", fmt.Sprintf("round %d: NewSession / Set on a fresh NewSessionManager did not return within 5 s", k), replay)
+		case <-time.After(40 * time.Second):
+			out.Fail("deb-mgr-submit-deadlock", fmt.Sprintf("round %d: NewSession / Set on a fresh NewSessionManager did not return within 40 s", k), replay)
 			continue
 		}
 		select {
 		case <-entered:
-		case <-time.After(5 * time.Second):
-			out.Fail("deb-mgr-real-no-reload", fmt.Sprintf("round %d: no reload was attempted within 5 s of the first Set", k), replay)
+		case <-time.After(40 * time.Second):
+			out.Fail("deb-mgr-real-no-reload", fmt.Sprintf("round %d: no reload was attempted within 40 s of the first Set", k), replay)
 			close(release)
 			continue
 		}
@@ -161,15 +161,15 @@ func TestVerifDebMgrReal(t *testing.T) {
 		}
 		select {
 		case <-done:
-		case <-time.After(3 * time.Second):
-			out.Fail("deb-mgr-submit-deadlock", fmt.Sprintf("round %d: a %s issued while a reload was in progress has not returned 3 s after the reload signal returned (reload failed: %v): submitter and reload loop wait for each other",
+		case <-time.After(30 * time.Second):
+			out.Fail("deb-mgr-submit-deadlock", fmt.Sprintf("round %d: a %s issued while a reload was in progress has not returned 30 s after the reload signal returned (reload failed: %v): submitter and reload loop wait for each other",
 				k, kind, failFirst), replay)
 			return // the manager's lock is held for good: stop here
 		}
 		want := vMgrFresh(h, 3)
 		okLoaded := false
 		got := ""
-		for w := time.Now().Add(3 * time.Second); time.Now().Before(w); time.Sleep(time.Millisecond) {
+		for w := time.Now().Add(30 * time.Second); time.Now().Before(w); time.Sleep(time.Millisecond) {
 			mu.Lock()
 			got = loaded
 			mu.Unlock()
